@@ -66,6 +66,7 @@ def handle (req : Json) : Json :=
         some (Json.mkObj [("src", sr.name), ("dst", d.name), ("guard", encR Json.bool gv), ("xform", xv)])
       | _, _ => some (Json.mkObj [("src", sr.name), ("dst", d.name), ("guard", Json.str "unmodelled")])
     else none)
-  Json.mkObj [("contains", Json.mkObj cont), ("trav", Json.arr trav.toArray), ("rels", Json.arr relJ.toArray)]
+  Json.mkObj [("contains", Json.mkObj cont), ("trav", Json.arr trav.toArray), ("rels", Json.arr relJ.toArray),
+    ("conv", Json.bool (Py.convCaughtL s))]
 
 end PyDrv
